@@ -49,6 +49,8 @@ TEXT_CLASSES = {
     "nonascii": st.text(alphabet=st.sampled_from(list(u"äöüßéñ中文日本語Ωμ°±€  😀𝔘")),
                         min_size=1, max_size=4),
     "lookalike": st.sampled_from(LOOKALIKES),
+    # line boundaries that are not CR/LF: what str.splitlines, YAML and XML treat specially
+    "unibreak": _join(_WORD, st.sampled_from([u"\u2028", u"\u2029", u"\x85", u"\u2028\u2029", u"\xa0", u"\ufeff"]), _WORD),
     "semiparen": _join(_WORD, st.sampled_from([";", "(", ")", "(a;b)", "; "]), _WORD),
     "free": st.text(alphabet=st.characters(blacklist_categories=("Cs", "Cc"),
                                            blacklist_characters=u"￾￿"),
@@ -82,6 +84,8 @@ def classify_text(s):
         out.add("xmlmeta")
     if any(ord(c) > 127 for c in s):
         out.add("nonascii")
+    if any(c in s for c in u"\u2028\u2029\x85"):
+        out.add("unibreak")
     if s in LOOKALIKES:
         out.add("lookalike")
     if any(c in s for c in ";()"):
